@@ -22,6 +22,14 @@ import (
 
 type slCase struct {
 	Kinds [][]any `json:"kinds"`
+	Req   []int   `json:"req"` // SymlinkRequire.tla: the entries the file requirer asks for (used with -a req=1)
+}
+
+// slRequirer requires exactly the listed paths.
+type slRequirer struct{ set map[string]bool }
+
+func (r slRequirer) FileRequired(p string, _ fs.FileInfo) bool {
+	return r.set[strings.TrimPrefix(p, "/")]
 }
 
 func slClass(err error) string {
@@ -97,6 +105,15 @@ func init() {
 			cases = append(cases, c)
 		}
 		depths := []int{0, 1, 2, 3, 4, 5, 6}
+		if e.Args["depths"] != "" {
+			depths = nil
+			for _, f := range strings.Split(e.Args["depths"], ",") {
+				d := 0
+				fmt.Sscanf(f, "%d", &d)
+				depths = append(depths, d)
+			}
+		}
+		withReq := e.Args["req"] == "1"
 		const batch = 1000
 		results := make([]map[string]any, len(cases))
 		for i := range results {
@@ -117,8 +134,12 @@ func init() {
 				defer wg.Done()
 				defer func() { <-sem }()
 				var l1, l2 []tarEntry
+				reqSet := map[string]bool{}
 				for gi := lo; gi < hi; gi++ {
 					dir := fmt.Sprintf("g%d", gi)
+					for _, j := range cases[gi].Req {
+						reqSet[fmt.Sprintf("%s/n%d", dir, j)] = true
+					}
 					l1 = append(l1, tarEntry{Name: dir + "/", Type: tar.TypeDir, Mode: 0755})
 					for j, k := range cases[gi].Kinds {
 						name := fmt.Sprintf("%s/n%d", dir, j+1)
@@ -167,6 +188,9 @@ func init() {
 				for _, d := range depths {
 					cfg := scimage.DefaultConfig()
 					cfg.MaxSymlinkDepth = d
+					if withReq {
+						cfg.Requirer = slRequirer{reqSet}
+					}
 					var img *scimage.Image
 					var lerr error
 					p := Safely(func() { img, lerr = scimage.FromV1Image(v1img, cfg) })
